@@ -27,7 +27,7 @@ import traceback
 import sfc_models.equation_solver
 from sfc_models.equation import EquationBlock, Equation
 from sfc_models.equation_parser import EquationParser
-from sfc_models.utils import Logger, LogicError
+from sfc_models.utils import Logger, LogicError, replace_token_from_lookup
 
 
 class EconomicObject(object):
@@ -370,6 +370,29 @@ class Model(EconomicObject):
             lookup[alias] = sector.GetVariableName(varname)
         for sector in self.GetSectors():
             sector._ReplaceAliases(lookup)
+        if len(lookup) == 0:
+            return
+        # Aliases may also have been embedded in model-level equations and exogenous definitions.
+        self.GlobalVariables = [(self._ReplaceAliasesInString(var, lookup),
+                                 self._ReplaceAliasesInString(eqn, lookup), desc)
+                                for var, eqn, desc in self.GlobalVariables]
+        self.Exogenous = [(sec, var, self._ReplaceAliasesInString(val, lookup))
+                          for sec, var, val in self.Exogenous]
+
+    @staticmethod
+    def _ReplaceAliasesInString(s, lookup):
+        """
+        Replace aliases in a string; leaves the string untouched if no alias is present.
+        :param s: str
+        :param lookup: dict
+        :return: str
+        """
+        if type(s) is not str:
+            return s
+        for alias in lookup:
+            if alias in s:
+                return replace_token_from_lookup(s, lookup).strip()
+        return s
 
     def LogInfo(self, generate_full_codes=True, ex=None):  # pragma: no cover
         """
